@@ -21,7 +21,8 @@ func init() {
 			"a directive without a reason never becomes an ignore, in the linter and in U1000's own ignore handling, and is reported with error severity in the compile category (R10.2); a problem is marked ignored only on the true edge of match, and the 'did not match anything' problem is produced only for an unmatched line ignore that names an enabled check and never for U1000 (R10.3); " +
 			"directive positions and problem positions are produced by the same position function from the package's file set (R10.4); U1000 decides whether a directive names it with the same case-folded glob predicate the linter uses (R10.5). " +
 			"It does NOT decide which node a comment is attached to (ast.CommentMap) or the glob semantics of filepath.Match." +
-			" Also decided: directives are recognised by looking at every comment of a comment group (never a fixed position of the group), and filterIgnored tests every directive against every problem.",
+			" Also decided: directives are recognised by looking at every comment of a comment group (never a fixed position of the group), and filterIgnored tests every directive against every problem." +
+			" Whether a useless directive is reported is decided with glob matching against the enabled checks, and U1000 neither decides nor reports (independent of its position in the list).",
 		RuleText:    "obligation = (rule, function::construct); guard-edge (must-pass-through-edge) and value-origin queries on the SSA CFG",
 		Assumptions: []string{"path/filepath.Match implements the documented glob syntax", "ast.NewCommentMap attaches a directive to the node on the following line"},
 		Run:         runC10,
